@@ -707,6 +707,10 @@ func runC05(c *Ctx) {
 	checkTTLLoopsSkipOPT(c)
 	_ = sort.Strings
 
+	// ---------------------------------------------------------------- R11
+	c.rule("R11", "the refresh starts from a snapshot taken before the stale answer is attached (else it re-stores the stale answer as fresh)", 1)
+	checkRefreshOnEarlyCopy(c)
+
 	// ---------------------------------------------------------------- R10
 	c.rule("R10", "entries loaded from a dump keep their age: stored time, message expiry and cache expiry are rebuilt from the dumped fields", 5)
 	if rd := c.fn(relCachePlugin, "Cache", "readDump"); rd != nil {
